@@ -50,6 +50,17 @@ func (x *Exec) call(e *ast.CallExpr, st *State) []Val {
 	if callee != nil {
 		return x.callFunc(callee, recvExpr, e, st)
 	}
+	// recursion: a literal verified on its own calling the variable it is bound to
+	if id, ok := fun.(*ast.Ident); ok && x.selfVar != nil && info.ObjectOf(id) == types.Object(x.selfVar) && len(x.frames) == 1 {
+		sig := x.fi.Obj.Type().(*types.Signature)
+		var args []Val
+		for _, a := range e.Args {
+			args = append(args, x.expr(a, st))
+		}
+		x.setPendingCaptured(x.fi.Decl.Body, x.info(), x.fi.Decl.Body.Pos(), x.fi.Decl.Body.End(), st)
+		defer func() { x.pendingCaptured, x.pendingCapObjs = nil, nil }()
+		return x.applyContract(x.fc, x.key, sig, nil, args, e, st)
+	}
 	// call of a function value
 	fv := x.expr(fun, st)
 	sig, _ := info.Types[fun].Type.Underlying().(*types.Signature)
@@ -318,12 +329,15 @@ func (x *Exec) applyContract(fc *FuncContract, key string, sig *types.Signature,
 		pty := x.w.goTy(p.Type(), x.model.BV)
 		names[p.Name()] = Val{T: x.coerceTo(args[i], pty), Ty: pty}
 	}
+	oldNames := map[string]Val{}
+	capObjs := x.pendingCapObjs
 	for n, v := range x.pendingCaptured {
 		if _, have := names[n]; !have {
 			names[n] = v
+			oldNames[n] = v
 		}
 	}
-	x.pendingCaptured = nil
+	x.pendingCaptured, x.pendingCapObjs = nil, nil
 	calleePkg := x.eng.pkgTypes[fc.Pkg]
 	if strings.Contains(key, ".") {
 		pn := key[:strings.Index(key, ".")]
@@ -333,7 +347,14 @@ func (x *Exec) applyContract(fc *FuncContract, key string, sig *types.Signature,
 	}
 	pre := st.clone()
 	look := func(n string) (Val, bool) { v, ok := names[n]; return v, ok }
-	env := &CEnv{x: x, st: st, old: pre, lookup: look, pkg: calleePkg, oldAlloc: pre.alloc}
+	oldLook := func(n string) (Val, bool) {
+		if v, ok := oldNames[n]; ok {
+			return v, true
+		}
+		v, ok := names[n]
+		return v, ok
+	}
+	env := &CEnv{x: x, st: st, old: pre, lookup: look, oldLook: oldLook, pkg: calleePkg, oldAlloc: pre.alloc}
 	for _, ld := range fc.Lets {
 		names[ld.Name] = env.eval(ld.E)
 	}
@@ -381,6 +402,14 @@ func (x *Exec) applyContract(fc *FuncContract, key string, sig *types.Signature,
 	na := x.sym.Fresh("alloc", SInt)
 	st.assume(Ge(na, st.alloc))
 	st.setAllocBase(na)
+	// captured variables assigned by the callee literal: new values
+	for n, obj := range capObjs {
+		ty := x.w.goTy(obj.Type(), x.model.BV)
+		f := x.sym.Fresh("cap_"+n, x.w.sortOf(ty, x.model))
+		st.assume(x.typeInv(f, ty, st.alloc))
+		st.vars[obj] = f
+		names[n] = Val{T: f, Ty: ty}
+	}
 	// results
 	var res []Val
 	fr := &frame{sig: sig}
@@ -562,8 +591,140 @@ func (x *Exec) funcLit(e *ast.FuncLit, st *State) Val {
 			return true
 		})
 	}
-	x.closures[id] = &closure{lit: e, fr: fr, name: fmt.Sprintf("%s#lit%d", fr.key, ord)}
+	cl := &closure{lit: e, fr: fr, name: fmt.Sprintf("%s#lit%d", fr.key, ord)}
+	x.closures[id] = cl
+	x.closureCreationPre(cl, st)
 	return Val{T: IntLit(id), Ty: x.tyOf(e)}
+}
+
+// setPendingCaptured: the values of the variables a literal captures, by name
+// (visible to the literal's contract at a call), and which of them the
+// literal assigns (in/out variables of the call).
+func (x *Exec) setPendingCaptured(body *ast.BlockStmt, info *types.Info, from, to token.Pos, st *State) {
+	x.pendingCaptured = map[string]Val{}
+	x.pendingCapObjs = map[string]*types.Var{}
+	assigned := map[types.Object]bool{}
+	ast.Inspect(body, func(nd ast.Node) bool {
+		mark := func(e ast.Expr) {
+			if id, ok := e.(*ast.Ident); ok {
+				if o := info.ObjectOf(id); o != nil {
+					assigned[o] = true
+				}
+			}
+		}
+		switch s := nd.(type) {
+		case *ast.AssignStmt:
+			for _, l := range s.Lhs {
+				mark(l)
+			}
+		case *ast.IncDecStmt:
+			mark(s.X)
+		}
+		return true
+	})
+	ast.Inspect(body, func(nd ast.Node) bool {
+		if id, ok := nd.(*ast.Ident); ok {
+			if v, ok := info.Uses[id].(*types.Var); ok && !v.IsField() {
+				if t, have := st.vars[v]; have && (v.Pos() < from || v.Pos() > to) {
+					ty := x.w.goTy(v.Type(), x.model.BV)
+					if x.heapified[v] {
+						_, h := x.ptrHeapOf(st, ty)
+						t = st.sel(h, t)
+					} else if assigned[v] {
+						x.pendingCapObjs[v.Name()] = v
+					}
+					x.pendingCaptured[v.Name()] = Val{T: t, Ty: ty}
+				}
+			}
+		}
+		return true
+	})
+}
+
+// closureCreationPre: a literal with a contract of its own may be returned or
+// stored and called later. The parts of its precondition that speak only about
+// captured variables must therefore hold where the literal is created
+// (clauses labelled given-* are assumptions about the data and are exempt).
+func (x *Exec) closureCreationPre(cl *closure, st *State) {
+	fc, ok := x.eng.contracts[cl.name]
+	if !ok || fc.Inline || len(fc.Requires) == 0 {
+		return
+	}
+	sig, _ := cl.fr.info.Types[cl.lit].Type.(*types.Signature)
+	params := map[string]bool{}
+	if sig != nil {
+		for i := 0; i < sig.Params().Len(); i++ {
+			params[sig.Params().At(i).Name()] = true
+		}
+	}
+	var mentions func(e *CExpr) bool
+	mentions = func(e *CExpr) bool {
+		if e == nil {
+			return false
+		}
+		if e.Kind == "id" && params[e.Name] {
+			return true
+		}
+		for _, a := range e.Args {
+			if mentions(a) {
+				return true
+			}
+		}
+		for _, v := range e.Vars {
+			if mentions(v.Lo) || mentions(v.Hi) {
+				return true
+			}
+		}
+		return false
+	}
+	for i, r := range fc.Requires {
+		if strings.HasPrefix(r.Label, "given") {
+			continue
+		}
+		// split conjunctions so that parameter-free parts are still checked
+		var parts []*CExpr
+		var split func(e *CExpr)
+		split = func(e *CExpr) {
+			if e.Kind == "bin" && e.Op == "&&" {
+				split(e.Args[0])
+				split(e.Args[1])
+				return
+			}
+			if e.Kind == "paren" {
+				split(e.Args[0])
+				return
+			}
+			parts = append(parts, e)
+		}
+		split(r.E)
+		for j, p := range parts {
+			if mentions(p) {
+				continue
+			}
+			env := x.invEnv(st, cl.lit.Pos(), nil)
+			var goal *Term
+			func() {
+				defer func() {
+					if rec := recover(); rec != nil {
+						if _, isStr := rec.(string); isStr {
+							goal = nil
+							return
+						}
+						panic(rec)
+					}
+				}()
+				goal = env.evalBool(p)
+			}()
+			if goal == nil {
+				continue
+			}
+			label := r.Label
+			if label == "" {
+				label = fmt.Sprintf("r%d", i+1)
+			}
+			x.oblige(st, "pre", fmt.Sprintf("%s.%d@creation:%s", label, j+1, shortKey(cl.name)), goal, cl.lit.Pos(), r.Src)
+		}
+	}
 }
 
 func (x *Exec) inlineClosure(cl *closure, args []Val, e ast.Node, st *State) []Val {
@@ -581,23 +742,8 @@ func (x *Exec) inlineClosure(cl *closure, args []Val, e ast.Node, st *State) []V
 			call = &ast.CallExpr{Fun: cl.lit, Lparen: cl.lit.Pos()}
 		}
 		// captured variables are visible to the literal's contract by name
-		x.pendingCaptured = map[string]Val{}
-		ast.Inspect(cl.lit.Body, func(nd ast.Node) bool {
-			if id, ok := nd.(*ast.Ident); ok {
-				if v, ok := cl.fr.info.Uses[id].(*types.Var); ok && !v.IsField() {
-					if t, have := st.vars[v]; have && (v.Pos() < cl.lit.Pos() || v.Pos() > cl.lit.End()) {
-						ty := x.w.goTy(v.Type(), x.model.BV)
-						if x.heapified[v] {
-							_, h := x.ptrHeapOf(st, ty)
-							t = st.sel(h, t)
-						}
-						x.pendingCaptured[v.Name()] = Val{T: t, Ty: ty}
-					}
-				}
-			}
-			return true
-		})
-		defer func() { x.pendingCaptured = nil }()
+		x.setPendingCaptured(cl.lit.Body, cl.fr.info, cl.lit.Pos(), cl.lit.End(), st)
+		defer func() { x.pendingCaptured, x.pendingCapObjs = nil, nil }()
 		return x.applyContract(fc, cl.name, sig, nil, args, call, st)
 	}
 	fr := &frame{key: cl.name, pkg: cl.fr.pkg, info: cl.fr.info, fc: fc, sig: sig, body: cl.lit.Body}
@@ -756,6 +902,10 @@ func (x *Exec) callEffects(e *ast.CallExpr, eff *loopEffects, unknown func(strin
 		}
 	}
 	if callee == nil {
+		if id, ok := fun.(*ast.Ident); ok && x.selfVar != nil && info.ObjectOf(id) == types.Object(x.selfVar) {
+			unknown("recursive call of the literal under verification (state the loop frame with modifies/preserves)")
+			return
+		}
 		// function value: closures defined in this function are inlined;
 		// their bodies are part of the enclosing AST only if defined inside
 		// the loop. Be conservative for closures defined outside.
